@@ -36,8 +36,9 @@ What is NOT re-modelled here (owned by other properties, entering as explicit pa
     behaves as a FIFO of messages, given the laws proved for the real codec by C04
     (`binary_partition_independent`, `frames_of_messages`) and C03 (`parse_marshal`).
   * unique names are the client indices (client `i` is `:1.(i+1)` on a fresh bus; the harness maps names
-    to indices); name ownership is C13, match rules are C12/C14.  Calls with `expectReply=False`, timeouts
-    and lost connections are outside C11 (C08, C09, C10).
+    to indices); name ownership is C13, match rules are C12/C14.  Calls with `expectReply=False` and lost
+    connections are outside C11 (C09, C10).  A deadline (`timeout=`) is the step `expire`; how the delayed call is
+    scheduled and cancelled is C08's.
 
 Constants that are tables in the source (the three built-in (interface, member) pairs, reply signatures,
 error names and texts, the exception-name prefix, the invalid-name notice, the `dbus_` attribute prefix, the
@@ -239,6 +240,8 @@ inductive Outcome (V : Type) where
   | remoteError (name : String) (text : String)
   /-- `errback(RemoteError('Unexpected return value signature…'))` raised by `_cbCvtReply` -/
   | sigMismatch
+  /-- `errback(error.TimeOut('Method call timed out'))` from `_onMethodTimeout` -/
+  | timedOut
   deriving DecidableEq, Repr
 
 /-- `_cbCvtReply(msg, returnSignature)`; `retSig = none` is `_NO_CHECK_RETURN`. -/
@@ -507,10 +510,13 @@ structure Client (V : Type) where
   invocations : List (Invocation V)
   /-- every reply this client sent as an exporter: (sender of the call, serial of the call, why) -/
   answers : List (Option Nat × Nat × Answer V)
+  /-- reply serials that arrived when nothing was pending under them (the late reply to a call that already
+  timed out): `methodReturnReceived`/`errorReceived` do nothing with them -/
+  late : List Nat
 
 def Client.init {V : Type} (firstSerial : Nat) : Client V :=
   { nextSerial := firstSerial, nextTok := 0, pending := [], up := [], down := [], exec := [],
-    issued := [], completions := [], invocations := [], answers := [] }
+    issued := [], completions := [], invocations := [], answers := [], late := [] }
 
 structure Net (V : Type) where
   /-- number of attached clients: indices `0 .. n-1` -/
@@ -537,6 +543,9 @@ inductive Step (V : Type) where
   | toClient (c : Nat) (beh : Behaviour V)
   /-- the application on client `c` fires the Deferred number `tok` -/
   | resolve (c : Nat) (tok : Nat) (res : Result V)
+  /-- the deadline of the call with this serial passes on client `c` (`timeout=` was given): the reactor runs
+  `_onMethodTimeout`.  Enabled only while the call is pending (a reply cancels the delayed call). -/
+  | expire (c : Nat) (serial : Nat)
   deriving Repr
 
 /-- `conn.callRemote` on a client. -/
@@ -580,7 +589,7 @@ def dispatch {V : Type} (w : World V) (j : Nat) (cl : Client V) (serial : Nat) (
 /-- `methodReturnReceived` / `errorReceived`. -/
 def complete {V : Type} (cl : Client V) (replySerial : Nat) (content : Reply V) : Client V :=
   match pLookup cl.pending replySerial with
-  | none => cl
+  | none => { cl with late := cl.late ++ [replySerial] }
   | some retSig =>
     { cl with pending := pErase cl.pending replySerial,
               completions := cl.completions ++ [(replySerial, outcomeOf retSig content)] }
@@ -624,11 +633,20 @@ def resolveStep {V : Type} (w : World V) (net : Net V) (c : Nat) (tok : Nat) (re
   | some (e, rest) =>
     net.upd c (fun cl => sendAnswer w { cl with exec := rest } e.sender e.serial (.result e.sigOut e.nret res))
 
+/-- `_onMethodTimeout(serial, d)`: `del self._pendingCalls[serial]; d.errback(TimeOut)` -/
+def expireStep {V : Type} (net : Net V) (c : Nat) (serial : Nat) : Net V :=
+  match pLookup (net.cl c).pending serial with
+  | none => net
+  | some _ =>
+    net.upd c (fun cl => { cl with pending := pErase cl.pending serial,
+                                   completions := cl.completions ++ [(serial, .timedOut)] })
+
 def step {V : Type} (w : World V) (net : Net V) : Step V → Net V
   | .call c req => if c < net.n then net.upd c (fun cl => (issue w cl req).1) else net
   | .toBus c => if c < net.n then busStep net c else net
   | .toClient c beh => if c < net.n then clientStep w net c beh else net
   | .resolve c tok res => if c < net.n then resolveStep w net c tok res else net
+  | .expire c serial => if c < net.n then expireStep net c serial else net
 
 def run {V : Type} (w : World V) (net : Net V) (steps : List (Step V)) : Net V :=
   steps.foldl (step w) net
